@@ -89,6 +89,38 @@ func (c09Prop) Generate(seed uint64, idx int, tier string) *Plan {
 	if r.P(2, 3) {
 		pl.Ops = append(pl.Ops, C09Op{Flush: true})
 	}
+	if r.P(1, 7) {
+		// Boundary mode: blocks whose record count or byte length sits exactly
+		// at, just below or just above a varint length boundary (64, 8192) or
+		// a power of two the framing code might special-case.
+		pl.Ops = nil
+		pl.Type = r.Pick([]string{"One", "Padded", "Padded"})
+		pl.BlockSize = 1 << 24
+		for g := r.Range(1, 3); g > 0; g-- {
+			if pl.Type == "One" || r.P(1, 2) {
+				k := r.PickInt([]int{63, 64, 65, 127, 128, 129, 255, 256, 8191, 8192, 8193})
+				if pl.Type != "One" && k > 300 {
+					k = 64
+				}
+				for i := 0; i < k; i++ {
+					pl.Ops = append(pl.Ops, C09Op{Pad: 0})
+				}
+			} else {
+				// one record whose encoding has exactly L bytes: ID varint (1 byte for small IDs) + length varint + pad
+				L := r.PickInt([]int{63, 64, 65, 127, 128, 129, 8191, 8192, 8193, 16383, 16384, 16385})
+				pad := L - 2
+				if pad >= 64 {
+					pad--
+				}
+				if pad >= 8192 {
+					pad--
+				}
+				pl.Ops = append(pl.Ops, C09Op{Pad: pad})
+			}
+			pl.Ops = append(pl.Ops, C09Op{Flush: true})
+		}
+		return &Plan{Prop: "C09", Seed: seed, Idx: idx, Tier: tier, C09: pl}
+	}
 	// block size: edge values, or near a (sum of) record size(s)
 	switch r.Intn(6) {
 	case 0:
